@@ -2,7 +2,11 @@
 //! script = [has_max; max; pred_mode; policy; p1; p2; retry; nreq; L; delay x L;
 //!           nreq blocks [(okind payload gated ready) x L]; (op a)*]
 //! op 1 Poll a | 2 Advance a ms | 3 Complete a | 4 MakeReady a | 5 Call a
-//! trace = per event [r; kind; payload; attempts; wake mask; published state; calls started; finished]
+//! durations (p1 of Fixed, Custom table): below 2^40 milliseconds, 2^40 + n = n nanoseconds
+//! has_max: bit 0 = max_attempts(max) (else unlimited); has_max / 2 = 0 one service per request,
+//!          1 all requests through one ReconnectService, 2 through clones of one service
+//! trace = per event [r; kind; payload; attempts; wake mask; published state; calls started; finished;
+//!                    hash of on_state_change `to` states; hash of on_reconnect attempt numbers]
 //!         ++ per request [ncalls; (start, end|-1)*] ++ [readiness-contract violations]
 use std::future::Future;
 use std::pin::Pin;
@@ -66,6 +70,8 @@ struct Shared {
     per: Mutex<Vec<PerReq>>,
     violations: AtomicUsize,
     t0: u64,
+    /// request the harness is about to submit (its poll_ready + call on a possibly shared handle)
+    starting: Mutex<Option<usize>>,
 }
 
 impl Shared {
@@ -78,9 +84,31 @@ impl Shared {
 }
 
 struct Scripted {
-    id: usize,
+    /// request this instance serves; None until the first `call` on a shared handle
+    id: Option<usize>,
     sh: Arc<Shared>,
     ready: bool,
+}
+
+const DUR_FLAG: i128 = 1 << 40;
+fn dur_of(e: i128) -> Duration {
+    if e < DUR_FLAG {
+        Duration::from_millis(e.max(0) as u64)
+    } else {
+        Duration::from_nanos((e - DUR_FLAG) as u64)
+    }
+}
+
+/// Advance both clocks. Short advances go one millisecond at a time (as everywhere in the
+/// harness); long ones in a single jump (nothing but hand-polled futures lives in this runtime).
+async fn advance(ms: u64) {
+    if ms <= 64 {
+        advance_ms(ms).await;
+    } else {
+        VIRT_NS.fetch_add(ms * 1_000_000, Ordering::SeqCst);
+        tokio::time::advance(Duration::from_millis(ms)).await;
+        settle().await;
+    }
 }
 
 impl Clone for Scripted {
@@ -95,12 +123,17 @@ impl Service<usize> for Scripted {
     type Future = Pin<Box<dyn Future<Output = Result<i128, E>>>>;
 
     fn poll_ready(&mut self, cx: &mut Context<'_>) -> Poll<Result<(), E>> {
-        let k = self.sh.per.lock().unwrap()[self.id].ncalls;
+        let starting = *self.sh.starting.lock().unwrap();
+        let Some(id) = starting.or(self.id) else {
+            self.ready = true;
+            return Poll::Ready(Ok(()));
+        };
+        let k = self.sh.per.lock().unwrap()[id].ncalls;
         if k == 0 {
             self.ready = true;
             return Poll::Ready(Ok(()));
         }
-        let e = self.sh.entry(self.id, k);
+        let e = self.sh.entry(id, k);
         match e.ready {
             0 => {
                 self.ready = true;
@@ -109,7 +142,7 @@ impl Service<usize> for Scripted {
             1 => Poll::Ready(Err(E { code: 100000 + e.payload, flag: true })),
             _ => {
                 let mut per = self.sh.per.lock().unwrap();
-                let p = &mut per[self.id];
+                let p = &mut per[id];
                 if p.released {
                     self.ready = true;
                     Poll::Ready(Ok(()))
@@ -126,6 +159,7 @@ impl Service<usize> for Scripted {
             self.sh.violations.fetch_add(1, Ordering::SeqCst);
         }
         self.ready = false;
+        self.id = Some(id);
         let sh = self.sh.clone();
         let now = sh.now_ms();
         let (k, rx) = {
@@ -170,10 +204,12 @@ type Res = Result<i128, RErr>;
 
 fn run(s: &[i128]) -> Vec<i128> {
     let (has_max, max, pred_mode, policy) = (zn(s, 0), zn(s, 1), zn(s, 2), zn(s, 3));
-    let (p1, p2, retry) = (zn(s, 4).max(0) as u64, zn(s, 5).max(0) as u64, zn(s, 6) != 0);
+    let (p1, p2, retry) = (zn(s, 4), zn(s, 5).max(0) as u64, zn(s, 6) != 0);
+    let limited = has_max.rem_euclid(2) != 0;
+    let handle_mode = has_max.div_euclid(2);
     let n = zn(s, 7).max(0) as usize;
     let l = zn(s, 8).max(0) as usize;
-    let delays: Vec<u64> = (0..l).map(|k| zn(s, 9 + k).max(0) as u64).collect();
+    let delays: Vec<Duration> = (0..l).map(|k| dur_of(zn(s, 9 + k))).collect();
     let blk = 4 * l;
     let mut per = Vec::new();
     for i in 0..n {
@@ -196,17 +232,36 @@ fn run(s: &[i128]) -> Vec<i128> {
 
     let rt = paused_rt();
     rt.block_on(async move {
-        let sh = Arc::new(Shared { per: Mutex::new(per), violations: AtomicUsize::new(0), t0: now_ns() });
+        let sh = Arc::new(Shared { per: Mutex::new(per), violations: AtomicUsize::new(0), t0: now_ns(), starting: Mutex::new(None) });
         let pol = match policy {
             0 => ReconnectPolicy::None,
-            1 => ReconnectPolicy::fixed(Duration::from_millis(p1)),
+            1 => ReconnectPolicy::fixed(dur_of(p1)),
             2 => ReconnectPolicy::Custom(Arc::new(FnInterval::new(move |a: usize| {
-                Duration::from_millis(delays.get(a).copied().unwrap_or(0))
+                delays.get(a).copied().unwrap_or(Duration::ZERO)
             }))),
-            _ => ReconnectPolicy::exponential(Duration::from_millis(p1), Duration::from_millis(p2)),
+            _ => ReconnectPolicy::exponential(Duration::from_millis(p1.max(0) as u64), Duration::from_millis(p2)),
         };
-        let mut b = ReconnectConfig::builder().policy(pol).retry_on_reconnect(retry);
-        b = if has_max != 0 { b.max_attempts(max.max(0) as u32) } else { b.unlimited_attempts() };
+        // callbacks (crate feature `tracing`): rolling hashes of what they are told during one event
+        const HP: i128 = 1_000_000_007;
+        let cb = Arc::new(Mutex::new((0i128, 0i128)));
+        let (cb1, cb2) = (cb.clone(), cb.clone());
+        let mut b = ReconnectConfig::builder()
+            .policy(pol)
+            .retry_on_reconnect(retry)
+            .on_state_change(move |_from, to| {
+                let code = match to {
+                    ConnectionState::Connected => 0,
+                    ConnectionState::Disconnected => 1,
+                    ConnectionState::Reconnecting => 2,
+                };
+                let mut g = cb1.lock().unwrap();
+                g.0 = (g.0 * 5 + code + 1) % HP;
+            })
+            .on_reconnect(move |attempt| {
+                let mut g = cb2.lock().unwrap();
+                g.1 = (g.1 * 1_000_003 + attempt as i128) % HP;
+            });
+        b = if limited { b.max_attempts(max.max(0) as u32) } else { b.unlimited_attempts() };
         b = match pred_mode {
             0 => b,
             1 => b.reconnect_predicate(|e: &dyn std::error::Error| parse_e(&e.to_string()).1),
@@ -215,6 +270,8 @@ fn run(s: &[i128]) -> Vec<i128> {
         };
         let layer = ReconnectLayer::new(b.build());
         let state = layer.state().clone();
+        // handle_mode 1/2: one ReconnectService serves every request (directly / through its clones)
+        let mut handle = layer.layer(Scripted { id: None, sh: sh.clone(), ready: false });
 
         let mut callers: Vec<Option<Manual<Res>>> = (0..n).map(|_| None).collect();
         let mut tr: Vec<i128> = Vec::new();
@@ -226,9 +283,25 @@ fn run(s: &[i128]) -> Vec<i128> {
                     if !idx_ok { continue; }
                     let i = a as usize;
                     if callers[i].is_none() {
-                        let mut svc = layer.layer(Scripted { id: i, sh: sh.clone(), ready: false });
-                        futures::future::poll_fn(|cx| svc.poll_ready(cx)).await.ok();
-                        callers[i] = Some(Manual::new(svc.call(i)));
+                        *sh.starting.lock().unwrap() = Some(i);
+                        let fut = match handle_mode {
+                            1 => {
+                                futures::future::poll_fn(|cx| Service::<usize>::poll_ready(&mut handle, cx)).await.ok();
+                                handle.call(i)
+                            }
+                            2 => {
+                                let mut svc = handle.clone();
+                                futures::future::poll_fn(|cx| Service::<usize>::poll_ready(&mut svc, cx)).await.ok();
+                                svc.call(i)
+                            }
+                            _ => {
+                                let mut svc = layer.layer(Scripted { id: Some(i), sh: sh.clone(), ready: false });
+                                futures::future::poll_fn(|cx| Service::<usize>::poll_ready(&mut svc, cx)).await.ok();
+                                svc.call(i)
+                            }
+                        };
+                        *sh.starting.lock().unwrap() = None;
+                        callers[i] = Some(Manual::new(fut));
                     }
                     if op == 1 {
                         let m = callers[i].as_mut().unwrap();
@@ -264,7 +337,7 @@ fn run(s: &[i128]) -> Vec<i128> {
                         }
                     }
                 }
-                2 => advance_ms(a.max(0) as u64).await,
+                2 => advance(a.max(0) as u64).await,
                 3 => {
                     if !idx_ok { continue; }
                     let tx = sh.per.lock().unwrap()[a as usize].tx.take();
@@ -300,7 +373,8 @@ fn run(s: &[i128]) -> Vec<i128> {
                 let fi: usize = per.iter().map(|p| p.calls.iter().filter(|c| c.1 >= 0).count()).sum();
                 (st as i128, fi as i128)
             };
-            tr.extend([r, kind, payload, attempts, mask, cs, started, finished]);
+            let (h1, h2) = std::mem::take(&mut *cb.lock().unwrap());
+            tr.extend([r, kind, payload, attempts, mask, cs, started, finished, h1, h2]);
         }
         drop(callers);
         let per = sh.per.lock().unwrap();
